@@ -188,11 +188,14 @@ def neutral_fields(eng, code, S, H, B):
     return out
 
 
-def make_instance(eng, code):
+def make_instance(eng, code, a0=1):
     S, H, B = z3.Ints("S H B")
     eng.assume(z3.And(S >= 1, H >= 1, B >= 1))
     cls = eng.module(f"{IP}/{code}.py").get(code)
-    o = eng.instantiate(cls, [sym_hist(S, H, B)], {"subscribe": True})
+    kw = {"subscribe": True}
+    if code == "code4" and a0 != 1:
+        kw["alpha0"] = a0
+    o = eng.instantiate(cls, [sym_hist(S, H, B)], kw)
     return o, S, H, B
 
 
@@ -222,9 +225,10 @@ def check_fields(T, eng, key, hyps, o, fields, tag):
         tensor_obligation(T, eng, f"{key}#inv.{name}{tag}", hyps, act, shape, fn, kind="inv", code=code)
 
 
-def t_fast(code):
+def t_fast(code, a0=1):
     def task(T):
         key = f"{IP}/{code}.py::{code}"
+        atag = "" if a0 == 1 else f",alpha0={a0}"
         # ---- (1) __init__ establishes the invariant for shape (S, 1)
         eng = T.engine(policy(code))
         for m in ("__init__", "_precompute", "_precompute_alphasets", "__call__"):
@@ -232,31 +236,31 @@ def t_fast(code):
         box = {}
 
         def run_init():
-            o, S, H, B = make_instance(eng, code)
+            o, S, H, B = make_instance(eng, code, a0)
             box.update(o=o, S=S, H=H, B=B)
             return o
         results = eng.explore(run_init)
         T.absorb(eng, results)
         for k, r in enumerate(results):
             if r.kind != "return":
-                T.fail(f"{key}.__init__#no-raise@path{k}", str(r.exc_name), kind="raises")
+                T.fail(f"{key}.__init__#no-raise@path{k}{atag}", str(r.exc_name), kind="raises")
                 continue
             o, S, H, B = box["o"], box["S"], box["H"], box["B"]
             hy = r.path.hyps()
-            check_fields(T, eng, f"{key}.__init__", hy, o, neutral_fields(eng, code, S, H, B), f"@path{k}")
-            check_fields(T, eng, f"{key}.__init__", hy, o, inv_fields(eng, code, o, S, H, z3.IntVal(1), B), f"@path{k}")
+            check_fields(T, eng, f"{key}.__init__", hy, o, neutral_fields(eng, code, S, H, B), f"@path{k}{atag}")
+            check_fields(T, eng, f"{key}.__init__", hy, o, inv_fields(eng, code, o, S, H, z3.IntVal(1), B), f"@path{k}{atag}")
             subs = [c for c in r.path.calls if c.target == "events.py::subscribe"]
             ok = len(subs) == 1 and subs[0].args == ["tensorlib_changed"]
-            (T.ok if ok else T.fail)(f"{key}.__init__#post.subscribed-to-tensorlib_changed@path{k}", *([] if ok else ["_precompute not subscribed"]), kind="order")
+            (T.ok if ok else T.fail)(f"{key}.__init__#post.subscribed-to-tensorlib_changed@path{k}{atag}", *([] if ok else ["_precompute not subscribed"]), kind="order")
             if code == "code4":
-                _coefficients_obligation(T, eng, key, hy, o, S, H, B, f"@path{k}")
+                _coefficients_obligation(T, eng, key, hy, o, S, H, B, f"@path{k}{atag}", a0)
         # ---- (2) __call__ from the state left by any history: Inv(A0) -> value == spec and Inv(A)
         for hist_case in ("fresh", "after-any-history"):
             eng = T.engine(policy(code))
             box = {}
 
             def run_call():
-                o, S, H, B = make_instance(eng, code)
+                o, S, H, B = make_instance(eng, code, a0)
                 A = z3.Int("A")
                 eng.assume(A >= 1)
                 if hist_case == "after-any-history":
@@ -273,7 +277,7 @@ def t_fast(code):
             if not any(r.kind == "return" for r in results):
                 T.fail(f"{key}.__call__#post.value@{hist_case}", "no normally returning path")
             for k, r in enumerate(results):
-                sfx = f"@{hist_case},path{k}"
+                sfx = f"@{hist_case},path{k}{atag}"
                 if r.kind != "return":
                     T.fail(f"{key}.__call__#no-raise{sfx}", str(r.exc_name), kind="raises", code=code)
                     continue
@@ -286,7 +290,7 @@ def t_fast(code):
                     g = [z3.Int(f"g{k_}") for k_ in range(4)]
                     dg, ng, ug = triple(g[0], g[1], g[3])
                     co_ = o.attrs["coefficients"]
-                    hy = hy + boundary_system(ZOps, [co_.fn((z3.IntVal(r_), g[0], g[1], g[3])) for r_ in range(6)], dg, ng, ug)
+                    hy = hy + boundary_system(ZOps, [co_.fn((z3.IntVal(r_), g[0], g[1], g[3])) for r_ in range(6)], dg, ng, ug, a0)
 
                 def spec_el(i, o=o):
                     s, h, a, b = i
@@ -295,11 +299,11 @@ def t_fast(code):
                     if code == "code4":
                         co = o.attrs["coefficients"]
                         cs = [co.fn((z3.IntVal(r_), s, h, b)) for r_ in range(6)]
-                        return I4(ZOps, al, d, n, u, cs)
+                        return I4(ZOps, al, d, n, u, cs, a0)
                     return SPEC[code](ZOps, al, d, n, u)
                 inputs = {"alpha": AlphaF(z3.Int("g0"), z3.Int("g2")), "down": HistF(z3.Int("g0"), z3.Int("g1"), 0, z3.Int("g3")),
                           "nom": HistF(z3.Int("g0"), z3.Int("g1"), 1, z3.Int("g3")), "up": HistF(z3.Int("g0"), z3.Int("g1"), 2, z3.Int("g3"))}
-                tensor_obligation(T, eng, f"{key}.__call__#post.value{sfx}", hy, r.value, (S, H, A, B), spec_el, inputs=inputs, code=code)
+                tensor_obligation(T, eng, f"{key}.__call__#post.value{sfx}", hy, r.value, (S, H, A, B), spec_el, inputs=inputs, code=code, alpha0=a0)
                 check_fields(T, eng, f"{key}.__call__", hy, o, inv_fields(eng, code, o, S, H, A, B), sfx)
             if hist_case == "fresh" and results and results[0].kind == "return":
                 T.cover(eng, f"{key}.__call__#cover", results[0].path.hyps())
@@ -308,7 +312,7 @@ def t_fast(code):
         box = {}
 
         def run_pre():
-            o, S, H, B = make_instance(eng, code)
+            o, S, H, B = make_instance(eng, code, a0)
             A0 = z3.Int("A0")
             eng.assume(A0 >= 1)
             for n, v in inv_fields(eng, code, o, S, H, A0, B).items():
@@ -323,13 +327,13 @@ def t_fast(code):
                 T.fail(f"{key}._precompute#no-raise@path{k}", str(r.exc_name), kind="raises")
                 continue
             o, S, H, B, A0 = box["o"], box["S"], box["H"], box["B"], box["A0"]
-            check_fields(T, eng, f"{key}._precompute", r.path.hyps(), o, inv_fields(eng, code, o, S, H, A0, B), f"@path{k}")
-            check_fields(T, eng, f"{key}._precompute", r.path.hyps(), o, neutral_fields(eng, code, S, H, B), f"@path{k}")
+            check_fields(T, eng, f"{key}._precompute", r.path.hyps(), o, inv_fields(eng, code, o, S, H, A0, B), f"@path{k}{atag}")
+            check_fields(T, eng, f"{key}._precompute", r.path.hyps(), o, neutral_fields(eng, code, S, H, B), f"@path{k}{atag}")
     task.__name__ = "t_" + code
     return task
 
 
-def _coefficients_obligation(T, eng, key, hy, o, S, H, B, sfx):
+def _coefficients_obligation(T, eng, key, hy, o, S, H, B, sfx, a0=1):
     """code4: the stored coefficients satisfy the six boundary conditions (defined implicitly, not by re-typing A^-1)"""
     co = o.attrs.get("_coefficients")
     if not isinstance(co, PT):
@@ -339,16 +343,17 @@ def _coefficients_obligation(T, eng, key, hy, o, S, H, B, sfx):
     (s, h, b), bounds = generic_index((S, H, B))
     d, n, u = triple(s, h, b)
     cs = [co.fn((z3.IntVal(r_), s, h, b)) for r_ in range(6)]
-    eqs = boundary_system(ZOps, cs, d, n, u)
+    eqs = boundary_system(ZOps, cs, d, n, u, a0)
     names = ["value@+a0", "value@-a0", "first-derivative@+a0", "first-derivative@-a0", "second-derivative@+a0", "second-derivative@-a0"]
     for nm, e in zip(names, eqs):
         T.ob(eng, f"{key}.__init__#post.coefficients.{nm}{sfx}", hy + bounds + [positivity(S, H, B)], e,
-             inputs={"down": d, "nom": n, "up": u}, code="code4")
+             inputs={"down": d, "nom": n, "up": u}, code="code4", alpha0=a0)
 
 
 def t_slow(T):
-    table = {"code0": ("summand", I0), "code1": ("product", I1), "code2": ("summand", I2), "code4p": ("summand", I4p), "code4": ("product", None)}
-    for code, (meth, spec) in table.items():
+    table = [("code0", "summand", I0, 1), ("code1", "product", I1, 1), ("code2", "summand", I2, 1), ("code4p", "summand", I4p, 1),
+             ("code4", "product", None, 1), ("code4", "product", None, 2)]
+    for code, meth, spec, a0 in table:
         key = f"{IP}/{code}.py::_slow_{code}.{meth}"
         eng = T.engine({"inline": [f"{IP}/{code}.py::_slow_{code}."]})
         f = T.under_contract(eng, key)
@@ -361,13 +366,13 @@ def t_slow(T):
                 eng.assume(z3.And(d > 0, n > 0, u > 0))
             o = Rec(cls)
             if code == "code4":
-                o.attrs["alpha0"] = 1
+                o.attrs["alpha0"] = a0
             box.update(d=d, n=n, u=u, al=al)
             return eng.call_function(f, [o, d, n, u, al], {}, force_inline=True)
         results = eng.explore(thunk)
         T.absorb(eng, results)
         for k, r in enumerate(results):
-            sfx = f"@path{k}"
+            sfx = f"@path{k}" + ("" if a0 == 1 else f",alpha0={a0}")
             if r.kind != "return":
                 T.fail(f"{key}#no-raise{sfx}", str(r.exc_name), kind="raises")
                 continue
@@ -378,8 +383,8 @@ def t_slow(T):
             else:
                 # core polynomial: exists the solution c of the boundary system; the value is I4 with it
                 cs = [z3.Real(f"c{i}") for i in range(1, 7)]
-                hy = r.path.hyps() + boundary_system(ZOps, cs, d, n, u)
-                T.ob(eng, f"{key}#post.value{sfx}", hy, eng.to_real(r.value) == I4(ZOps, al, d, n, u, cs), inputs=inputs, code=code, slow=True)
+                hy = r.path.hyps() + boundary_system(ZOps, cs, d, n, u, a0)
+                T.ob(eng, f"{key}#post.value{sfx}", hy, eng.to_real(r.value) == I4(ZOps, al, d, n, u, cs, a0), inputs=inputs, code=code, slow=True, alpha0=a0)
     # uniqueness of the boundary system's solution (so that "the" polynomial of code 4 is well defined)
     eng = T.engine({})
     eng.path = __import__("pyvc.interp", fromlist=["Path"]).Path([])
@@ -489,6 +494,7 @@ def t_slow_looper_bounded(T):
 
 def tasks(tier):
     ts = [(c, t_fast(c)) for c in ("code0", "code1", "code2", "code4", "code4p")]
+    ts.append(("code4[alpha0=2]", t_fast("code4", 2)))
     ts += [("slow", t_slow), ("get", t_get), ("lemmas", t_lemmas), ("looper-bounded", t_slow_looper_bounded)]
     return ts
 
@@ -504,35 +510,33 @@ def _val(x):
     return None
 
 
-def oracle(code, al, d, n, u):
+def oracle(code, al, d, n, u, a0=1.0):
     if code == "code4":
+        import math
         import numpy as np
         up, dn = u / n, d / n
-        if al >= 1:
+        if al >= a0:
             return up ** al
-        if al <= -1:
+        if al <= -a0:
             return dn ** (-al)
-        rows = []
-        for x in (1.0, -1.0):
-            rows.append([x ** i for i in range(1, 7)])
-        for x in (1.0, -1.0):
-            rows.append([i * x ** (i - 1) for i in range(1, 7)])
-        for x in (1.0, -1.0):
-            rows.append([i * (i - 1) * x ** (i - 2) if i >= 2 else 0.0 for i in range(1, 7)])
-        import math
-        rhs = [up - 1, dn - 1, math.log(up) * up, -math.log(dn) * dn, math.log(up) ** 2 * up, math.log(dn) ** 2 * dn]
+        rows = [[x ** i for i in range(1, 7)] for x in (a0, -a0)]
+        rows += [[i * x ** (i - 1) for i in range(1, 7)] for x in (a0, -a0)]
+        rows += [[i * (i - 1) * x ** (i - 2) if i >= 2 else 0.0 for i in range(1, 7)] for x in (a0, -a0)]
+        rhs = [up ** a0 - 1, dn ** a0 - 1, math.log(up) * up ** a0, -math.log(dn) * dn ** a0, math.log(up) ** 2 * up ** a0, math.log(dn) ** 2 * dn ** a0]
         c = np.linalg.solve(np.asarray(rows), np.asarray(rhs))
         return 1 + sum(c[i - 1] * al ** i for i in range(1, 7))
     return {"code0": I0, "code1": I1, "code2": I2, "code4p": I4p}[code](FOps, al, d, n, u)
 
 
 def replay(r):
-    """run the real interpolator (vectorised and scalar reference) on the solver's counterexample and, always,
-    on a fixed set of alphas covering both extrapolation sides, the core and the breakpoints"""
+    """run the real interpolator (vectorised and scalar reference) on the solver's counterexample and, always, on a fixed set
+    of alphas covering both extrapolation sides, the core and the breakpoints - through a HISTORY of calls with different
+    alpha-set shapes (one column, three columns, one column again) on the same interpolator object"""
     meta = r.get("meta") or {}
     code = meta.get("code")
     if code is None:
         return None
+    a0 = float(meta.get("alpha0") or 1)
     model = r.get("model") or {}
     import numpy as np
     import pyhf
@@ -541,21 +545,35 @@ def replay(r):
     al, d, n, u = (_val(model.get(k)) for k in ("alpha", "down", "nom", "up"))
     if None not in (al, d, n, u) and (code in ADDITIVE or min(d, n, u) > 0):
         pts.append((al, d, n, u))
-    for a in (-3.0, -2.0, -1.0000001, -1.0, -0.5, 0.0, 0.5, 1.0, 1.0000001, 2.0, 3.0):
+    for a in (-3.0, -2.0, -a0 * 1.0000001, -a0, -1.0000001, -1.0, -0.5, 0.0, 0.5, 1.0, 1.0000001, a0, a0 * 1.0000001, 2.0, 3.0):
         pts.append((a, 8.0, 10.0, 13.0))
     key = "4p" if code == "code4p" else int(code[-1])
+    kw = {"alpha0": a0} if code == "code4" and a0 != 1 else {}
     bad = []
+    slow_only = bool(meta.get("slow"))
     for (al, d, n, u) in pts:
-        want = oracle(code, al, d, n, u)
+        want = oracle(code, al, d, n, u, a0)
         hist = [[[[d], [n], [u]]]]
-        fast = float(pyhf.interpolators.get(key)(hist)(np.asarray([[al]]))[0][0][0][0])
-        slow = float(np.asarray(pyhf.interpolators.get(key, do_tensorized_calc=False)(hist)(np.asarray([[al]])))[0][0][0][0])
         tol = 1e-6 * max(1.0, abs(want))
-        # next to a breakpoint the pieces differ by O(distance): compare against the oracle evaluated at the same alpha
-        if abs(fast - want) > tol or abs(slow - want) > tol:
-            bad.append({"alpha": al, "triple": (d, n, u), "fast": fast, "slow": slow, "oracle": want})
-    if meta.get("slow"):
-        bad = [b for b in bad if abs(b["slow"] - b["oracle"]) > 1e-6 * max(1.0, abs(b["oracle"]))]
+        slow_cls = pyhf.interpolators.get(key, do_tensorized_calc=False)
+        slow_obj = slow_cls(hist, **kw) if kw else slow_cls(hist)
+        slow = float(np.asarray(slow_obj(np.asarray([[al]])))[0][0][0][0])
+        if abs(slow - want) > tol and (slow_only or not meta.get("fast_only")):
+            bad.append({"impl": "scalar reference", "alpha": al, "triple": (d, n, u), "got": slow, "oracle": want})
+        if slow_only:
+            continue
+        fast_cls = pyhf.interpolators.get(key)
+        obj = fast_cls(hist, **kw) if kw else fast_cls(hist)
+        history = [np.asarray([[al]]), np.asarray([[al, 0.3, -al]]), np.asarray([[al]])]
+        for step, alphas in enumerate(history):
+            out = np.asarray(obj(alphas))
+            for col, a_ in enumerate(alphas[0]):
+                w = oracle(code, float(a_), d, n, u, a0)
+                g = float(out[0][0][col][0])
+                if abs(g - w) > 1e-6 * max(1.0, abs(w)):
+                    bad.append({"impl": "vectorised", "call": step, "shape": list(alphas.shape), "alpha": float(a_), "triple": (d, n, u), "got": g, "oracle": w})
+    if slow_only:
+        bad = [b for b in bad if b["impl"] == "scalar reference"]
     else:
-        bad = [b for b in bad if abs(b["fast"] - b["oracle"]) > 1e-6 * max(1.0, abs(b["oracle"]))]
+        bad = [b for b in bad if b["impl"] == "vectorised"] or bad
     return {"reproduced": bool(bad), "disagreements": bad[:6]}
